@@ -69,6 +69,8 @@ let model_op toks : string = match toks with
       Printf.sprintf "%s %s %s %s %s" (hexz s) d v d v
   | ["hex"; h] -> hexz (model_from_hex (bytes_of_hex h))
   | ["b64"; h] -> hexz (model_from_base64 (bytes_of_hex h))
+  (* fromBase64 on a String attached to the window of a block window ++ tail: as repaired (fixes/C18/03) the tail does not enter *)
+  | ["b64a"; h; _] -> hexz (model_from_base64 (bytes_of_hex h))
   | ["b64raw"; h] -> hexz (get (from_base64_unrepaired (bytes_of_hex h)))
   | ["fromint"; v] -> hexz (from_int (z_of_dec v))
   | ["fromuint"; v] -> hexz (from_uint (z_of_dec v))
@@ -92,31 +94,42 @@ let valued lo hi s = match ref_value s with
   | Some v -> if in_range lo hi v then dec_of_z v else "?"
   | None -> "?"
 
+(* what the property text demands of a validator: strict UTF-8 text (encodings of scalar values) is accepted, bytes that are
+   not even lead byte + announced continuation bytes are rejected; overlong forms, values above U+10FFFF and encoded
+   surrogates are left open *)
+let valid3 bs = if utf8_strict bs then "1" else if layout_valid bs then "?" else "0"
+
 let spec_op toks : string = match toks with
   | ["u8sw"; p; s] ->
       sweep p s (fun b -> match utf8_first b with Some cp -> dec_of_z cp | None -> "?") ^ " " ^
-      sweep p s (fun b -> if utf8_text b then "1" else if layout_valid b then "?" else "0")
+      sweep p s valid3
   | ["b64sw"; p; s] -> sweep p s (fun b -> match rfc4648_preimage b with Some bs -> hexz bs | None -> "?")
   | ["u8enc"; cp] -> let c = z_of_dec cp in if is_cp c then hexz (rfc3629 c) else "?"
   | ["u8encn"; cps] ->
       let l = cps_of_tok cps in
       if List.for_all is_cp l then hexz (List.concat (List.map rfc3629 l)) else "?"
-  | ["u8len"; b] -> dec_of_z (lead_len (z_of_dec b))
+  (* length(): demanded only on the bytes that start the encoding of a code point, where it is the length of that encoding *)
+  | ["u8len"; b] ->
+      let b = z_of_dec b in
+      if starts_encoding b then string_of_int (List.length (rfc3629 (lead_witness b))) else "?"
   | ["u8dec"; h] -> let v = (match utf8_first (bytes_of_hex h) with Some cp -> dec_of_z cp | None -> "?") in v ^ " " ^ v
   | ["u8valid"; h] ->
       let bs = bytes_of_hex h in
-      let v = if utf8_text bs then "1" else if layout_valid bs then "?" else "0" in v ^ " " ^ v
+      let v = valid3 bs in v ^ " " ^ v
   | ["u8deca"; h; _] -> (match utf8_first (bytes_of_hex h) with Some cp -> dec_of_z cp | None -> "?")
-  | ["u8valida"; h; _] -> let bs = bytes_of_hex h in if utf8_text bs then "1" else if layout_valid bs then "?" else "0"
+  | ["u8valida"; h; _] -> valid3 (bytes_of_hex h)
   | ["tointa"; h; _] -> valued int_min int_max (bytes_of_hex h)
   | ["touinta"; h; _] -> valued Z0 uint_max (bytes_of_hex h)
   | ["toint64a"; h; _] -> valued int64_min int64_max (bytes_of_hex h)
   | ["touint64a"; h; _] -> valued Z0 uint64_max (bytes_of_hex h)
   | ["u8rt"; cp] ->
       let c = z_of_dec cp in
-      if is_cp c then Printf.sprintf "%s %s 1 %s 1" (hexz (rfc3629 c)) (dec_of_z c) (dec_of_z c) else "? ? ? ? ?"
+      if is_cp c then
+        let v = if is_surrogate c then "?" else "1" in
+        Printf.sprintf "%s %s %s %s %s" (hexz (rfc3629 c)) (dec_of_z c) v (dec_of_z c) v
+      else "? ? ? ? ?"
   | ["hex"; h] -> hexz (upper_hex (bytes_of_hex h))
-  | ["b64"; h] | ["b64raw"; h] ->
+  | ["b64"; h] | ["b64raw"; h] | ["b64a"; h; _] ->
       (match rfc4648_preimage (bytes_of_hex h) with Some bs -> hexz bs | None -> "?")
   | ["fromint"; v] -> ranged int_min int_max (z_of_dec v) (fun v -> hexz (ref_decimal v))
   | ["fromuint"; v] -> ranged Z0 uint_max (z_of_dec v) (fun v -> hexz (ref_decimal v))
